@@ -146,6 +146,10 @@ fn fields(rng: &mut Rng, cfg: &DocCfg) -> Map<String, Value> {
     for _ in 0..n {
         m.insert(rng.pick(&FIELD_KEYS).to_string(), value(rng, cfg, 0));
     }
+    if cfg.nasty && rng.chance(1, 10) {
+        // user content that looks like the library's own markers (a soft-delete flag, ...)
+        m.insert(rng.pick(&["_deleted", "_resolved"]).to_string(), Value::Bool(rng.chance(3, 4)));
+    }
     m
 }
 
